@@ -87,3 +87,23 @@ class NpShim:
         if isinstance(x, SFloat):
             return x.sqrt()
         return _np.sqrt(x, *a, **k)
+
+    def roll(self, x, shift, *a, **k):
+        """np.roll on a proxy vector: result[i] = x[(i - shift) mod n]."""
+        if isinstance(x, SArr):
+            self._count('roll')
+            n = len(x)
+            if n == 0:
+                return x.copy()
+            if isinstance(shift, SInt):
+                pm = shift.t % n  # z3 mod with a positive modulus is non-negative, as Python's
+                items = []
+                for i in range(n):
+                    t = x.items[(i - (n - 1)) % n].t
+                    for r in range(n - 2, -1, -1):
+                        t = z3.If(pm == r, x.items[(i - r) % n].t, t)
+                    items.append(SFloat(t))
+                return SArr(items)
+            sh = int(shift) % n
+            return SArr([x.items[(i - sh) % n] for i in range(n)])
+        return _np.roll(x, shift, *a, **k)
